@@ -622,7 +622,7 @@ func (s *scope) createInstance(descriptor *Descriptor) (any, error) {
 				continue
 			}
 
-			if regDescriptor == descriptor || (reg.Type == descriptor.Type && regKey == descriptor.Key) {
+			if regDescriptor == descriptor || (reg.Type == descriptor.Type && regKey == descriptor.Key && reg.Group == descriptor.Group) {
 				primaryService = value
 			}
 
